@@ -39,7 +39,9 @@ PARAM_KINDS = OrderedDict(
     )
 )
 TRUTHS = [["int5"], ["strx"], ["int5", "strx"], ["strx", "boolf"], ["boolf", "int5"], ["float_nodefault", "int5"], ["optstr"], ["int5", "optstr"], ["int5", "strx", "boolf"], ["strx", "int5", "optstr"],
-          ["int5_nodoc", "strx_nodoc"], ["strx_nodoc", "lit_nodoc", "int5_nodoc"], ["strx", "lit"], ["lit_nodoc"]]
+          ["int5_nodoc", "strx_nodoc"], ["strx_nodoc", "lit_nodoc", "int5_nodoc"], ["strx", "lit"], ["lit_nodoc"],
+          # truths that document a return value ("+ret" is not a parameter kind: it adds the return entry)
+          ["int5", "+ret"], ["strx", "boolf", "+ret"]]
 DIFFERENT = ["zeta_int9"]
 # near-miss targets: the truth with one default changed / one trailing parameter more / its last parameter missing / its Literal one member short
 STATES = ["equivalent", "different", "diff_default", "diff_extra", "diff_tail_missing", "diff_literal_short", "missing", "empty"]
@@ -77,7 +79,8 @@ def interface(keys):
     names = ["alpha", "beta", "gamma"]
     if keys == "different":
         return A.mk_ir([("zeta", OrderedDict((("doc", "the zeta"), ("typ", "int"), ("default", 9))))], None, "Other summary.", name=None)
-    return A.mk_ir([(n, PARAM_KINDS[k]) for n, k in zip(names, keys)], None, "Summary line.", name=None)
+    ret = OrderedDict((("doc", "the result"), ("typ", "int"))) if "+ret" in keys else None
+    return A.mk_ir([(n, PARAM_KINDS[k]) for n, k in zip(names, [k for k in keys if k != "+ret"])], ret, "Summary line.", name=None)
 
 
 def render_target(kind, ir, style="rest"):
